@@ -89,6 +89,7 @@ CHECKS = {
         pkg="./c15", level="exploration",
         runs=[
             dict(name="bubble", run="^TestPropQueryEvents$", checks=(12000, 80000), shards=(4, 16)),
+            dict(name="restart", run="^TestPropRestart$", checks=(3000, 20000), shards=(4, 16)),
             dict(name="regress", run="^(TestRegress.*|TestRealNATSRelease)$", shards=(1, 1)),
         ],
     ),
